@@ -27,6 +27,7 @@ REQUIRED = {
     "mon:far.tags-at-outcome": 1000,
     "mon:far.details-identical": 500,
     "mon:far.times-as-supplied": 300,
+    "mon:stream.events-not-changed-after-delivery": 1000,
     "mon:far.skip-reason": 100,
 }
 ASSUMPTIONS = [
@@ -68,6 +69,9 @@ def x_hist(ctx, case):
     try:
         H.drive(top, history, details_fn=details_fn)
         crashed = None
+        late = sink.aliasing_problems()
+        ctx.check(not late, "stream.events-not-changed-after-delivery",
+                  lambda: {"tag sets that changed after the event carrying them was delivered": late, **detail()})
     except Exception:
         import traceback
         crashed = traceback.format_exc(limit=6)
@@ -239,7 +243,7 @@ SUBCHECKS = {"hist": x_hist}
 TYPES = [["application", "octet-stream", {}], ["text", "plain", {"charset": "utf8"}], ["text", "plain", {}],
          ["text", "x-traceback", {"charset": "utf8", "language": "python"}],
          ["video", "mp4", {"codecs": "avc1.42E01E, mp4a.40.2"}], ["application", "x-foo", {"a": "b c", "z": "1;2"}]]
-NAMES = ["foo", "log", "traceback", "d\xe9tail", "reason2", "bin"]
+NAMES = ["foo", "log", "traceback", "d\xe9tail", "reason2", "bin", ""]
 
 
 def rand_detail(rng, name):
@@ -301,6 +305,8 @@ def rand_history(rng):
         if outcome == "addSkip" and rng.random() < 0.3:
             spec["no_start"] = True     # "In Python 3.12.1 skipped tests may not call startTest()"
             spec.pop("tags_in", None)
+        elif rng.random() < 0.2:
+            spec["tags_after"] = [H.random_tag_change(rng)]    # between the outcome and stopTest: discarded
         h.append(["test", spec])
     h.append(["stopTestRun"])
     return h
@@ -374,4 +380,20 @@ def run(ctx):
     for i in range(ctx.scale(6000, 400000)):
         if ctx.out_of_time():
             break
-        ctx.execute("hist", {"history": rand_history2(rng) if rng.random() < 0.2 else rand_history(rng)})
+        r = rng.random()
+        if r < 0.2:
+            h = rand_history2(rng)
+        else:
+            h = rand_history(rng)
+            if r < 0.3:
+                # a legacy runner that never calls startTestRun / stopTestRun: the decorator starts the run itself
+                # (what precedes the implicit start - run-level tags / time calls, the time supplied right
+                # before the first startTest - is before the run, and is not part of the bracket-less history)
+                h = h[1:-1]
+                while h and h[0][0] != "test":
+                    h.pop(0)
+                if h:
+                    h[0][1].pop("t0", None)
+                    if h[0][1].get("no_start"):
+                        h[0][1].pop("t1", None)   # its outcome is the call that starts the run
+        ctx.execute("hist", {"history": h})
